@@ -1428,7 +1428,9 @@ Theorem fails_alt : forall calls alts,
 Proof.
   induction calls as [|c r IH]; intros alts Hne Hnn.
   - destruct alts as [|a alts]; [congruence|reflexivity].
-  - cbn [fails is_nil]. rewrite feed_alt.
+  - assert (Hl : fails (SAlt alts) (c :: r) =
+                 match feed (SAlt alts) c with FErr _ _ => true | FOk s' _ => fails s' r end) by reflexivity.
+    rewrite Hl, feed_alt. clear Hl.
     set (g := fun a : sink => (is_nil a, feed a c)).
     assert (Hb : Forall (fun x => fst x = false) (map g alts)).
     { apply Forall_forall. intros x Hx. apply in_map_iff in Hx. destruct Hx as (a & <- & Ha).
@@ -1452,7 +1454,7 @@ Proof.
       apply existsb_exists in Enil. destruct Enil as (x & Hx & Hnil).
       apply in_map_iff in Hx. destruct Hx as (a & <- & Ha).
       symmetry. apply (forallb_false_intro _ _ a Ha).
-      rewrite (Hstep a Ha). unfold nilret, surv in *. destruct (snd (g a)) as [a' lg1|e lg1]; [|discriminate].
+      change (fails a (c :: r) = false). rewrite (Hstep a Ha). unfold nilret, surv in *. destruct (snd (g a)) as [a' lg1|e lg1]; [|discriminate].
       cbn [forallb]. now rewrite fails_is_nil.
     + destruct Hspec as (done' & lg' & le' & -> & Hp & Hle). cbn [app] in Hp.
       rewrite Hall, <- (forallb_perm _ _ _ Hp).
@@ -1486,15 +1488,19 @@ Qed.
 
 (* the documented edge: no alternative at all accepts everything *)
 Example alt_empty_accepts ts : sink_ok (SAlt []) ts.
-Proof. apply sink_ok_fails. destruct ts; reflexivity. Qed.
+Proof.
+  apply sink_ok_fails. destruct ts as [|t ts]; [reflexivity|].
+  rewrite calls_of_cons. cbn [fails is_nil]. rewrite feed_alt. cbn [length map alt_loop].
+  now apply fails_is_nil.
+Qed.
 
 Example alt_sink_ex :
-  let t1 := T KBool (VBool true) in let t2 := T KNil VNone in
-  let alts := [SFail 1 2; SCollectValue 2 []; SFilter (SFail 3 1) (PKindIn [KNil])] in
-  fails (SAlt alts) (calls_of [t1; t1]) = true /\ fails (SAlt alts) (calls_of [t1; t2]) = true /\
-  fails (SAlt alts) (calls_of [t1]) = false /\ fails (SAlt [SFail 1 2; SFail 2 3]) (calls_of [t1; t1]) = true /\
-  fails (SAlt [SFail 1 2; SFail 2 3]) (calls_of [t1]) = false.
-Proof. vm_compute. repeat split. Qed.
+  let t1 := T KBool (VBool true) in
+  let alts := [SFail 1 2; SFilter (SFail 3 1) (PKindIn [KNil])] in
+  (fails (SAlt alts) (calls_of [t1; t1]), fails (SAlt alts) (calls_of []),
+   fails (SAlt (alts ++ [SRec 4 (Fin 3)])) (calls_of [t1; t1]),
+   fails (SAlt (SRec 4 (Fin 3) :: alts)) (calls_of [t1; t1])) = (true, false, false, false).
+Proof. vm_compute. reflexivity. Qed.
 
 Print Assumptions copy_delivery.
 Print Assumptions copy_pulls.
